@@ -6,13 +6,48 @@ import os
 HERE = os.path.dirname(os.path.dirname(os.path.abspath(__file__)))
 
 CHECKS = {
+    'C01': dict(
+        category='model_checking', design_ref='DESIGN.md section 3, C01',
+        technique='deviation-bounded exhaustive enumeration of model topologies built with the real constructors; exact rational solution of the emitted equations; conservation sum checked in every (spec, period) state',
+        text='Every well-formed topology within the deviation bound of the base economy (5 families: one country, federated zone, two and three '
+             'currency zones with external sector, two zones without) is built through the public constructors; Model.main() emits the equations, '
+             'an independent reader + exact Fraction solver solves periods 1..3, and for every currency zone sum dF + FX NET must be exactly 0.',
+        note='Trusted: mc/exact.py (reader, affine solver; cross-checked against the library float solution on every converged case), mc/topo.py grammar. '
+             'Bounded: deviation bound 2 (quick) / 3 (thorough), horizon 3, two-point parameter alphabets; the non-affine PC-style weight uses a float gap oracle.'),
+    'C04': dict(
+        category='model_checking', design_ref='DESIGN.md section 3, C04',
+        technique='deviation-bounded exhaustive enumeration of model topologies; exact rational solution; per-market identities checked in every (spec, market, period) state with demander sets derived from the spec',
+        text='For every spec in the bound and every goods/labour/money/deposit market: DEM = sum of the demanders computed from the spec, SUP = DEM, '
+             'supplier assignments sum to SUP, each supplier variable and F inflow equals its assignment (x cross rate), each demander F holds -DEM, '
+             'asset demands sum to F, defaulted money demand equals F - all as exact rationals.',
+        note='Trusted: mc/exact.py, mc/topo.py. Bounded: deviation bound 2/3, horizon 3; up to 2 suppliers per goods market, up to 3 assets per portfolio.'),
+    'C07': dict(
+        category='model_checking', design_ref='DESIGN.md section 3, C07',
+        technique='exhaustive enumeration of multi-currency topologies x exchange-rate paths; exact rational solution; term-level and FX-net identities in every (spec, period) state; negative family without ExternalSector',
+        text='All two-/three-zone specs in the bound with a cross-currency gift, import supplier or gold government, with unit / constant / time-varying '
+             'rates: receiver credited amount*XR_s/XR_r, sender debited, sum NET_c*XR_c + NET_NUMERAIRE == 0, numeraire position 0 for paired flows, cross-rate '
+             'variables correct; the same specs without ExternalSector must raise a LogicError with no series produced.',
+        note='Trusted: mc/exact.py, mc/topo.py. Bounded: deviation bound 2/3 (two zones), 1/2 (three zones), horizon 3.'),
+    'C08': dict(
+        category='model_checking', design_ref='DESIGN.md section 3, C08',
+        technique='exhaustive permutation of construction histories (all dependency-respecting declaration orders of a country, or all single moves/transpositions/reversal for large countries); states reached through different histories compared by exact solution',
+        text='17 structurally different economies; every permutation of the sector declarations of a country (<= 6 declarations quick, <= 7 thorough) and '
+             'all O(n^2) moves for larger ones are executed on the real constructors; the exact rational solution of each emitted system must equal that of the canonical order.',
+        note='Trusted: mc/exact.py, mc/topo.py. Post-declaration calls stay in a fixed tail; countries are created in a fixed order.'),
+    'C18': dict(
+        category='model_checking', design_ref='DESIGN.md section 3, C18',
+        technique='exhaustive enumeration of (economy, renaming map) pairs and of ordered sets of embedded economies; exact rational differential between the renamed / joint build and the base / stand-alone build',
+        text='16 economies x all renaming maps changing <= 2 (quick) / 3 (thorough) codes (incl. prefixes of other codes and code swaps), single- and multi-country; all ordered '
+             'selections of 2..3 economies from 5 (currency strings containing one another) x external sector none/first/last; bundled builders SIM/SIMEX1/PC embedded next to another country; '
+             'solutions must coincide variable by variable under the name map / prefix rule, equations must not reference another economy.',
+        note='Trusted: mc/exact.py, mc/topo.py, the name-map functions in props/c18.py. The PC builder (non-affine) is compared on float series at tolerance 1e-12 with a gap oracle.'),
     'C12': dict(
         category='model_checking', design_ref='DESIGN.md section 3, C12',
         technique='explicit-state BFS over AddTerm histories on the real Equation class with state dedup, reference-model comparison at every transition; exhaustive list enumeration for create_equation_from_terms',
         text='Every AddTerm history up to the depth bound from every leading form is executed on the real Equation/Term classes; each '
              'reached state is compared (exact rationals, 3 prime valuations) with leading expression + signed sum of the added terms. '
              'All term lists up to the length bound go through create_equation_from_terms (value preserved, argument unchanged).',
-        note='Trusted: stdlib ast/fractions and the 200-line evaluator in mc/exact.py. Bounded: term alphabet of 18 spellings, 38 leading forms, depth 3 (quick) / 5 (thorough); arithmetic leading expressions only.'),
+        note='Trusted: stdlib ast/fractions and the 200-line evaluator in mc/exact.py. Bounded: term alphabet of 21 spellings, 38 leading forms, depth 3 (quick) / 5 (thorough); Term-object histories over 2 equations to depth 4/5; arithmetic leading expressions only.'),
 }
 
 NOT_YET = 'check not built yet in this session (planned, see DESIGN.md section 3)'
